@@ -282,6 +282,9 @@ class PyReader:
                         self.block(s.orelse, env, fns)
                 finally:
                     self.block(s.finalbody, env, fns)
+            elif isinstance(s, ast.Assert):
+                if not self.truthy(self.ev(s.test, env, fns), s.test):
+                    raise Raised("AssertionError", getattr(s, "lineno", 0))
             elif isinstance(s, ast.Break):
                 raise _Break()
             elif isinstance(s, ast.Continue):
@@ -429,6 +432,9 @@ class PyReader:
             self.fail(n, "attribute")
         if isinstance(n, ast.UnaryOp):
             v = self.ev(n.operand, env, fns)
+            hu = self.hook_unary(n.op, v, n)
+            if hu is not NotImplemented:
+                return hu
             if isinstance(n.op, ast.USub):
                 return -v if isinstance(v, int) else op("neg", self.scalar(v, n))
             if isinstance(n.op, ast.Not):
@@ -641,6 +647,9 @@ class PyReader:
 
     def hook_binop(self, o: ast.operator, l, r, n: ast.AST):
         """hook for arithmetic on rule-specific objects; NotImplemented = ordinary arithmetic"""
+        return NotImplemented
+
+    def hook_unary(self, o: ast.unaryop, v, n: ast.AST):
         return NotImplemented
 
     def store_attr(self, base, attr: str, value, n: ast.AST) -> bool:
